@@ -1,6 +1,6 @@
 (* C20 — derived result quantities are consistent views of one estimate (statements only; on the GENERATED table) *)
 From Coq Require Import ZArith List Bool String Reals.
-From SK Require Import Arith Cpx AttrThms.
+From SK Require Import Arith Cpx AttrThms Interp.
 From SK.gen Require Import AttrsGen.
 Section C20.
 Variable angle : R * R -> R. Variable unwrap : R -> R.
@@ -30,6 +30,18 @@ Proof. intros e. repeat split. Qed.
 Theorem C20_none_table : same_set none_table expected_none = true.
 Proof. exact none_table_exact. Qed.
 End C20.
+(* interpolated measurements: tabulated value at a grid frequency, affine in between, boundary values outside *)
+Theorem C20_interp_at_grid : forall pre x0 y0 x1 y1 post, strictly_increasing (pre ++ (x0, y0) :: (x1, y1) :: post) ->
+  interp_go RA x0 (pre ++ (x0, y0) :: (x1, y1) :: post) = y0.
+Proof. exact interp_at_grid. Qed.
+Theorem C20_interp_between : forall pre x0 y0 x1 y1 post x, strictly_increasing (pre ++ (x0, y0) :: (x1, y1) :: post) -> (x0 <= x < x1)%R ->
+  interp_go RA x (pre ++ (x0, y0) :: (x1, y1) :: post) = ((y1 - y0) / (x1 - x0) * (x - x0) + y0)%R.
+Proof. exact interp_between. Qed.
+Theorem C20_interp_clamps : forall pts x d x0 y0 tl,
+  ((x <= x0)%R -> interp RA x ((x0, y0) :: tl) = y0) /\
+  (strictly_increasing pts -> pts <> nil -> (fst (last pts d) <= x)%R -> interp RA x pts = snd (last pts d)).
+Proof. intros. split; [apply interp_below|apply interp_above]. Qed.
+Print Assumptions C20_interp_between.
 Print Assumptions C20_asd_sq_is_psd.
 Print Assumptions C20_none_table.
 Print Assumptions C20_conjugates.
